@@ -17,19 +17,58 @@ import (
 	"bytes"
 	"fmt"
 	"go/ast"
+	"go/parser"
 	"go/printer"
 	"go/token"
 	"go/types"
+	"os"
+	"path/filepath"
+	"sort"
 	"strings"
 )
 
 func init() {
 	emitters["50_fai"] = func(w *bytes.Buffer) {
-		p := load("fai")
+		p := faiLoad()
 		faiEmitRecordMethod(w, p, "position")
 		faiEmitRecordMethod(w, p, "endOfLineOffset")
 		faiEmitBlankArm(w, p)
 	}
+}
+
+// faiEmptyImporter gives every import an empty package: the functions read
+// here use only the package's own integer fields, so nothing of the imports
+// is needed (and type-checking the standard library from source is slow).
+type faiEmptyImporter struct{}
+
+func (faiEmptyImporter) Import(path string) (*types.Package, error) {
+	p := types.NewPackage(path, filepath.Base(path))
+	p.MarkComplete()
+	return p, nil
+}
+
+func faiLoad() *pkgInfo {
+	fset := token.NewFileSet()
+	pkgs, err := parser.ParseDir(fset, filepath.Join(repo, "fai"), func(fi os.FileInfo) bool {
+		n := fi.Name()
+		return !strings.HasSuffix(n, "_test.go") && !strings.HasPrefix(n, "verif_")
+	}, 0)
+	if err != nil || pkgs["fai"] == nil {
+		fatalf("parse fai: %v", err)
+	}
+	var names []string
+	for n := range pkgs["fai"].Files {
+		names = append(names, n)
+	}
+	sort.Strings(names)
+	var files []*ast.File
+	for _, n := range names {
+		files = append(files, pkgs["fai"].Files[n])
+	}
+	info := &types.Info{Types: map[ast.Expr]types.TypeAndValue{}, Defs: map[*ast.Ident]types.Object{}, Uses: map[*ast.Ident]types.Object{}}
+	conf := types.Config{Importer: faiEmptyImporter{}, Error: func(error) {}}
+	pkg, _ := conf.Check("github.com/biogo/hts/fai", fset, files, info)
+	return &pkgInfo{dir: "fai", name: "fai", fset: fset, files: files, info: info, pkg: pkg}
 }
 
 type faiTr struct {
